@@ -19,7 +19,7 @@ func init() {
 			"R20a every function literal of package ledgerstore with the signature of query.ContextFn (all v1 and v2 filters funnel through Builder.Build → Context.BuildMatcher) is analysed with key, operator and value as taint sources: nothing tainted reaches its first result (the SQL fragment) unless sanitised — equality with a constant on every path to the use, lookup in a package-level map of constants, a successful match against a package-level regexp proved quote-safe by walking its syntax tree (anchored ^…$, no ' \" \\ and no wide/negated class), or a numeric/time type; bound arguments (second result) are not sinks. " +
 			"R20b the combinators of libs/query (set.Build, not.Build, keyValue.Build) add only constant text around nested Build results: the only field they format is set.operator, whose every writer stores a constant or the tail of a parameter that all call sites have compared with constants. " +
 			"R20c in package ledgerstore the format/expression argument of every bun.SelectQuery builder call (Where, Join, ColumnExpr, TableExpr, OrderExpr, …) derives only from constants, Builder.Build results (R20a/b), rendered sub-queries, numeric/time formatting, or string parameters whose every call site passes such a value. " +
-			"R20d a `?` argument is data only while bun quotes it: every conversion to the types bun appends verbatim or as an identifier (schema.Safe, Name, Ident, QueryWithArgs — bun.Safe, bun.Ident, bun.SafeQuery, UnsafeIdent) anywhere outside libs takes a string that is clean in the sense of R20c (expected count on today's tree: zero; a mutant keeps the rule exercised).",
+			"R20e the text of a rendered query (SelectQuery.String()) is never used as a format that is given arguments — neither in a builder call nor in the (sql, args) pair of a filter — since bun would look for placeholders inside its literals. R20d a `?` argument is data only while bun quotes it: every conversion to the types bun appends verbatim or as an identifier (schema.Safe, Name, Ident, QueryWithArgs — bun.Safe, bun.Ident, bun.SafeQuery, UnsafeIdent) anywhere outside libs takes a string that is clean in the sense of R20c (expected count on today's tree: zero; a mutant keeps the rule exercised).",
 		NotDecided:  "bun's own quoting of bound `?` arguments; the cursor's Column/Order fields (client-controlled, formatted into ORDER BY by bunpaginate — outside the statement, which is about list filters); ledger and bucket names flowing into DDL.",
 		Trusted:     []string{"bun binds ? arguments as parameters / quoted literals", "regexp/syntax parses patterns as package regexp does"},
 		Assumptions: []string{"free variables captured by the filter callbacks that carry text are treated as tainted too (conservative)"},
@@ -496,6 +496,127 @@ func ruleR20c(c *Ctx, tc *taintCfg, build *types.Func) {
 		}
 	}
 	c.Info["raw_sql_wrappers"] = nRaw
+
+	// ---- R20e: a rendered query is text with the bound values already inside it as literals; formatting it AGAIN with
+	// arguments makes bun look for placeholders inside those literals (`asset = 'USD?'`), and the next argument — the
+	// client's filter value — is spliced into the middle of one. So the result of SelectQuery.String() is never (part
+	// of) a format that is given arguments: neither in a builder call nor in the (sql, args) pair a filter returns.
+	const ruleE = "R20e"
+	var fromRendered func(v ssa.Value, depth int, seen map[ssa.Value]bool) bool
+	fromRendered = func(v ssa.Value, depth int, seen map[ssa.Value]bool) bool {
+		if v == nil || depth > 8 || seen[v] {
+			return false
+		}
+		seen[v] = true
+		switch x := v.(type) {
+		case *ssa.Call:
+			name := calleeFullName(x)
+			if name == "(*"+pkgBun+".SelectQuery).String" {
+				return true
+			}
+			if name == "fmt.Sprintf" || name == "fmt.Sprint" || strings.HasPrefix(name, "strings.") {
+				for _, a := range x.Call.Args {
+					if fromRendered(a, depth+1, seen) {
+						return true
+					}
+					for _, e := range variadicElems(a) {
+						if fromRendered(e, depth+1, seen) {
+							return true
+						}
+					}
+				}
+			}
+			if g := staticCallee(x); g != nil && inRepo(fnPkgPath(origin(g))) && len(g.Blocks) > 0 && isStringType(x.Type()) {
+				for _, b := range g.Blocks {
+					if r, ok := b.Instrs[len(b.Instrs)-1].(*ssa.Return); ok && len(r.Results) > 0 && fromRendered(r.Results[0], depth+1, seen) {
+						return true
+					}
+				}
+			}
+		case *ssa.BinOp:
+			return fromRendered(x.X, depth+1, seen) || fromRendered(x.Y, depth+1, seen)
+		case *ssa.Phi:
+			for _, e := range x.Edges {
+				if fromRendered(e, depth+1, seen) {
+					return true
+				}
+			}
+		case *ssa.MakeInterface:
+			return fromRendered(x.X, depth+1, seen)
+		case *ssa.ChangeType:
+			return fromRendered(x.X, depth+1, seen)
+		case *ssa.Convert:
+			return fromRendered(x.X, depth+1, seen)
+		case *ssa.UnOp:
+			if x.Op == token.MUL {
+				if sv := singleStore(x.X); sv != nil {
+					return fromRendered(sv, depth+1, seen)
+				}
+			}
+		case *ssa.Extract:
+			if call, ok := x.Tuple.(*ssa.Call); ok {
+				if g := staticCallee(call); g != nil && inRepo(fnPkgPath(origin(g))) && len(g.Blocks) > 0 {
+					for _, b := range g.Blocks {
+						if r, ok := b.Instrs[len(b.Instrs)-1].(*ssa.Return); ok && x.Index < len(r.Results) && fromRendered(r.Results[x.Index], depth+1, seen) {
+							return true
+						}
+					}
+				}
+			}
+		}
+		return false
+	}
+	hasArgs := func(v ssa.Value) bool {
+		if v == nil || isNilConst(v) {
+			return false
+		}
+		if sl, ok := v.(*ssa.Slice); ok {
+			return len(variadicElems(sl)) > 0
+		}
+		return true // a slice of unknown content
+	}
+	nRendered := 0
+	seenE := map[string]int{}
+	for _, fn := range c.FuncsIn(pkgLedgerstore) {
+		if len(fn.Blocks) == 0 || fn.Synthetic != "" || strings.HasSuffix(c.Fset.Position(fn.Pos()).Filename, "migrations_v1.go") {
+			continue
+		}
+		for _, b := range fn.Blocks {
+			for _, ins := range b.Instrs {
+				var format, args ssa.Value
+				var what string
+				switch x := ins.(type) {
+				case *ssa.Call:
+					n := calleeFullName(x)
+					if strings.HasPrefix(n, "(*"+pkgBun+".SelectQuery).") && bunFormatMethods[strings.TrimPrefix(n, "(*"+pkgBun+".SelectQuery).")] && len(x.Call.Args) >= 2 {
+						format, what = x.Call.Args[1], "SelectQuery."+strings.TrimPrefix(n, "(*"+pkgBun+".SelectQuery).")
+						if len(x.Call.Args) >= 3 {
+							args = x.Call.Args[len(x.Call.Args)-1]
+						}
+					}
+				case *ssa.Return:
+					// a filter (or a helper of one): (sql string, args []any, err error)
+					if len(x.Results) == 3 && isStringType(x.Results[0].Type()) {
+						if _, isSl := x.Results[1].Type().Underlying().(*types.Slice); isSl {
+							format, args, what = x.Results[0], x.Results[1], "the SQL fragment returned with its arguments"
+						}
+					}
+				}
+				if format == nil || !fromRendered(format, 0, map[ssa.Value]bool{}) {
+					continue
+				}
+				nRendered++
+				key := fnName(fn) + ":rendered-query-not-formatted-again"
+				seenE[key]++
+				if n := seenE[key]; n > 1 {
+					key = fmt.Sprintf("%s#%d", key, n)
+				}
+				c.check(!hasArgs(args), ruleE, key, ins.Pos(), "the rendered sub-query is used as text, without arguments",
+					"the text of a rendered query (SelectQuery.String(): bound values are already inside it as quoted literals) is used as "+what+" together with arguments: bun scans it again for `?`, finds the ones inside the literals (an asset `USD?`), and splices the client's value into the literal — the value's text becomes SQL")
+			}
+		}
+	}
+	c.Info["rendered_subqueries_used_as_text"] = nRendered
 }
 
 func freeVarIsClean(c *Ctx, fv *ssa.FreeVar, valueIsClean func(fn *ssa.Function, user ssa.Instruction, v ssa.Value, depth int) bool) bool {
